@@ -36,6 +36,7 @@ def run(ctx):
                 "geometry_tools/automata/kbmag_utils.py"],
            scope=set(_entries(ctx, edit)))
     ctx.do(CA.rule_c2, "FSA")
+    ctx.do(CA.rule_cls1, "FSA")
     ctx.do(F.rule_v1p)
     ctx.do(F.rule_rf1)
     ctx.do(SI.rule_fk1, [SI.FSA])
